@@ -114,6 +114,8 @@ def _menu():
             lab.corner_override(m, k, 12, empty_ok=False)  # AD entry points: jax's det derivative fails on 0 x 0 blocks
             if m.get("corner") != "one_or_two_walkers" and nb0 is not None:
                 m["n_batch"] = nb0
+            if m["trial"] == "ghf":
+                m["trial"] = "noci"  # the independent SCF that hands C12 its converged trial knows RHF/UHF/NOCI trials only
         out.append(m)
     return out
 
